@@ -40,14 +40,28 @@ pub fn limit_case(i: u64) -> (String, NLib) {
     } else if i < 28 {
         let n = slens[i - 20];
         (format!("property value of {} bytes", n), mk(NElem { elflags: None, plex: None, kind: NKind::Boundary { layer: 1, datatype: 0, xy: xyn(4) }, props: vec![(1, strn(n))] }))
-    } else {
+    } else if i < 36 {
         let n = slens[(i - 28) % 8];
         let mut l = mk(NElem { elflags: None, plex: None, kind: NKind::Sref { sname: strn(n), strans: None, xy: vec![1, 2] }, props: vec![] });
         l.name = strn(n);
         (format!("library and structure-reference names of {} bytes", n), l)
+    } else if i < 44 {
+        // each long name alone, so that one record's failure cannot hide behind another's
+        let n = slens[i - 36];
+        let mut l = mk(NElem { elflags: None, plex: None, kind: NKind::Boundary { layer: 1, datatype: 0, xy: xyn(4) }, props: vec![] });
+        l.name = strn(n);
+        (format!("library name alone of {} bytes", n), l)
+    } else if i < 52 {
+        let n = slens[i - 44];
+        let mut l = mk(NElem { elflags: None, plex: None, kind: NKind::Boundary { layer: 1, datatype: 0, xy: xyn(4) }, props: vec![] });
+        l.structs[0].name = strn(n);
+        (format!("structure name alone of {} bytes", n), l)
+    } else {
+        let n = slens[(i - 52) % 8];
+        (format!("array-reference name of {} bytes", n), mk(NElem { elflags: None, plex: None, kind: NKind::Aref { sname: strn(n), strans: None, cols: 2, rows: 2, xy: vec![0, 0, 10, 0, 0, 10] }, props: vec![] }))
     }
 }
-pub const N_LIMITS: u64 = 36;
+pub const N_LIMITS: u64 = 60;
 
 impl C01 {
     fn check(&self, cx: &mut Cx, lib: &GdsLibrary, in_limit: bool, via_file: bool, desc: &str) {
